@@ -253,6 +253,9 @@ var (
 	// NewDeclHook: the function is declared in the analysed module but corresponds to no
 	// declaration of the baseline — it was introduced by a later edit.
 	NewDeclHook = func(f *types.Func) bool { return false }
+	// RecvOwnerHook: how the receiver of fn is named when its type is a later-introduced
+	// holder of one field of another struct ("recv.<field>", core.installOwner); "" otherwise.
+	RecvOwnerHook = func(fn *ssa.Function) string { return "" }
 )
 
 // FuncFullName: "pkgpath.Name" or "(*pkgpath.T).Name", generic instances
@@ -436,6 +439,9 @@ func (st *provState) compute(v ssa.Value) string {
 		}
 		fn := x.Parent()
 		if fn.Signature.Recv() != nil && len(fn.Params) > 0 && fn.Params[0] == x {
+			if q := RecvOwnerHook(fn); q != "" {
+				return q
+			}
 			return "recv"
 		}
 		return "p:" + x.Name()
@@ -460,13 +466,32 @@ func (st *provState) compute(v ssa.Value) string {
 		if x.Comment == "complit" && len(StoresTo(x)) == 0 && len(StructLitFields(x)) > 0 {
 			return "&" + st.loadAlloc(x)
 		}
+		// the address of a local struct that is handed to its own methods as a per-call context
+		// (`chk := check{ev: ev}; ok := chk.first(); … chk.second()`): the literal's fields, plus
+		// the fields that exactly one method stores, once in the whole module, through its receiver
+		if lit := st.contextStruct(x); lit != "" {
+			return lit
+		}
 		return "alloc:" + x.Name() + "@" + x.Parent().Name() + ":" + x.Comment
 	case *ssa.FieldAddr:
 		if a, ok := x.X.(*ssa.Alloc); ok {
+			// a local struct that a private method fills in (`var stmts insertStmts; err = stmts.prepare(ctx, tx)`):
+			// the field holds what that method stored, read in this function's terms
+			if v := st.filledByCallee(a, x); v != "" {
+				return v
+			}
 			// field of a local struct: a by-value parameter copy or a literal
 			return st.loadAlloc(a) + "." + fieldName(x.X.Type(), x.Field)
 		}
-		return st.path(x.X) + "." + fieldName(x.X.Type(), x.Field)
+		bp := st.path(x.X)
+		// field of an object that a constructor just built (`ss := newSession(id); … ss.id …`): what
+		// was put there, provided nobody assigns that field of that type anywhere else
+		if strings.HasPrefix(bp, "&lit{") {
+			if v, ok := litField(bp[1:], fieldName(x.X.Type(), x.Field)); ok && (FieldWriteOnceHook(x.X.Type(), x.Field) || FieldSingleStoreHook(x.X.Type(), x.Field) != nil) {
+				return v
+			}
+		}
+		return bp + "." + fieldName(x.X.Type(), x.Field)
 	case *ssa.Field:
 		return st.path(x.X) + "." + fieldName(x.X.Type(), x.Field)
 	case *ssa.IndexAddr:
@@ -544,7 +569,11 @@ func (st *provState) compute(v ssa.Value) string {
 	case *ssa.BinOp:
 		return "(" + st.path(x.X) + " " + x.Op.String() + " " + st.path(x.Y) + ")"
 	case *ssa.Call:
-		return st.call(&x.Call, x)
+		r := st.call(&x.Call, x)
+		if strings.HasPrefix(r, "&lit{") {
+			r = st.withLaterFields(r, x)
+		}
+		return r
 	case *ssa.Extract:
 		switch t := x.Tuple.(type) {
 		case *ssa.Call:
@@ -703,6 +732,306 @@ func (st *provState) call(c *ssa.CallCommon, v ssa.Value) string {
 	}
 	return "call:" + name + "(" + strings.Join(as, ",") + ")"
 }
+
+// contextStruct renders the address of a local struct variable as `&lit{…}` when it is used as
+// a per-call context: never assigned as a whole, at least one field set by its literal, its
+// address only handed to private helpers. Fields stored exactly once in the whole module, by a
+// helper this function calls on it, are included with the stored value in this function's terms.
+func (st *provState) contextStruct(a *ssa.Alloc) string {
+	pt, ok := a.Type().(*types.Pointer)
+	if !ok || st.depth >= 2 || a.Referrers() == nil {
+		return ""
+	}
+	stt, ok := pt.Elem().Underlying().(*types.Struct)
+	if !ok || len(StoresTo(a)) != 0 {
+		return ""
+	}
+	fs := StructLitFields(a)
+	if len(fs) == 0 {
+		return ""
+	}
+	var sites []*ssa.Call
+	for _, ref := range *a.Referrers() {
+		switch x := ref.(type) {
+		case *ssa.FieldAddr, *ssa.DebugRef:
+		case *ssa.Call:
+			h := StaticCallee(&x.Call)
+			if !PrivateHelper(h) || len(h.Params) != len(x.Call.Args) {
+				return ""
+			}
+			sites = append(sites, x)
+		default:
+			return ""
+		}
+	}
+	if len(sites) == 0 {
+		return ""
+	}
+	parts := map[string]string{}
+	for n, v := range fs {
+		parts[n] = st.path(v)
+	}
+	for i := 0; i < stt.NumFields(); i++ {
+		name := fieldName(a.Type(), i)
+		if _, has := parts[name]; has {
+			continue
+		}
+		s := FieldSingleStoreHook(a.Type(), i)
+		if s == nil {
+			continue
+		}
+		fa, ok := s.Addr.(*ssa.FieldAddr)
+		if !ok {
+			continue
+		}
+		par, ok := fa.X.(*ssa.Parameter)
+		if !ok {
+			continue
+		}
+		for _, site := range sites {
+			h := StaticCallee(&site.Call)
+			if h != par.Parent() {
+				continue
+			}
+			bound := false
+			for j, p := range h.Params {
+				if p == par && site.Call.Args[j] == ssa.Value(a) {
+					bound = true
+				}
+			}
+			if !bound {
+				continue
+			}
+			sub := &provState{memo: map[ssa.Value]string{}, busy: map[ssa.Value]bool{}, bind: map[*ssa.Parameter]string{}, depth: st.depth + 1}
+			for j, p := range h.Params {
+				if site.Call.Args[j] == ssa.Value(a) {
+					// the context itself, as far as the literal names it (no recursion into this rendering)
+					var lp []string
+					for n, v := range fs {
+						lp = append(lp, n+"="+st.path(v))
+					}
+					sort.Strings(lp)
+					sub.bind[p] = "&lit{" + strings.Join(lp, ",") + "}"
+				} else {
+					sub.bind[p] = st.path(site.Call.Args[j])
+				}
+			}
+			parts[name] = sub.path(s.Val)
+		}
+	}
+	var ps []string
+	for n, v := range parts {
+		ps = append(ps, n+"="+v)
+	}
+	sort.Strings(ps)
+	return "&lit{" + strings.Join(ps, ",") + "}"
+}
+
+// FieldSingleStoreHook: the one store instruction in the whole module that assigns field #i of
+// the struct behind t (nil if there is none or more than one) — installed by the loader.
+var FieldSingleStoreHook = func(t types.Type, i int) *ssa.Store { return nil }
+
+// filledByCallee: field fa of the local struct a has no store in this function, the struct's
+// address is handed (as receiver or argument) to exactly one call of a private helper before fa
+// is used, and that helper stores the field exactly once, through that parameter: the stored
+// value, in the caller's terms. "" otherwise.
+func (st *provState) filledByCallee(a *ssa.Alloc, fa *ssa.FieldAddr) string {
+	if st.depth >= 2 || a.Referrers() == nil {
+		return ""
+	}
+	// no store to this field here
+	for _, ref := range *a.Referrers() {
+		if f2, ok := ref.(*ssa.FieldAddr); ok && f2.Field == fa.Field && f2.Referrers() != nil {
+			for _, r2 := range *f2.Referrers() {
+				if s, ok := r2.(*ssa.Store); ok && s.Addr == ssa.Value(f2) {
+					return ""
+				}
+			}
+		}
+	}
+	var found *ssa.Store
+	var site *ssa.CallCommon
+	for _, ref := range *a.Referrers() {
+		call, ok := ref.(*ssa.Call)
+		if !ok {
+			continue
+		}
+		h := StaticCallee(&call.Call)
+		if !PrivateHelper(h) || len(h.Params) != len(call.Call.Args) {
+			continue
+		}
+		for i, arg := range call.Call.Args {
+			if arg != ssa.Value(a) {
+				continue
+			}
+			par := h.Params[i]
+			if par.Referrers() == nil {
+				continue
+			}
+			for _, pr := range *par.Referrers() {
+				f2, ok := pr.(*ssa.FieldAddr)
+				if !ok || f2.Field != fa.Field || f2.Referrers() == nil {
+					continue
+				}
+				for _, r2 := range *f2.Referrers() {
+					if s, ok := r2.(*ssa.Store); ok && s.Addr == ssa.Value(f2) {
+						if found != nil || !InstrDominates(call, fa) || LoopHeaderOf(s.Block()) != nil {
+							return ""
+						}
+						found, site = s, &call.Call
+					}
+				}
+			}
+		}
+	}
+	if found == nil {
+		return ""
+	}
+	sub := &provState{memo: map[ssa.Value]string{}, busy: map[ssa.Value]bool{}, bind: map[*ssa.Parameter]string{}, depth: st.depth + 1}
+	h := StaticCallee(site)
+	for i, p := range h.Params {
+		sub.bind[p] = st.path(site.Args[i])
+	}
+	return sub.path(found.Val)
+}
+
+// withLaterFields: lit is the rendering `&lit{…}` of what the constructor call v returned; fields
+// the calling function fills in afterwards, once each and outside any loop (`ss.ch = make(…)`),
+// are part of the object the rest of the function works with.
+func (st *provState) withLaterFields(lit string, v *ssa.Call) string {
+	if v.Referrers() == nil {
+		return lit
+	}
+	extra := map[string]string{}
+	for _, ref := range *v.Referrers() {
+		fa, ok := ref.(*ssa.FieldAddr)
+		if !ok || fa.Referrers() == nil {
+			continue
+		}
+		var stores []*ssa.Store
+		for _, r2 := range *fa.Referrers() {
+			if s, ok := r2.(*ssa.Store); ok && s.Addr == ssa.Value(fa) {
+				stores = append(stores, s)
+			}
+		}
+		name := fieldName(fa.X.Type(), fa.Field)
+		if len(stores) != 1 || LoopHeaderOf(stores[0].Block()) != nil {
+			continue
+		}
+		if _, dup := extra[name]; dup {
+			extra[name] = ""
+			continue
+		}
+		if _, has := litField(lit[1:], name); has {
+			continue
+		}
+		extra[name] = st.path(stores[0].Val)
+	}
+	if len(extra) == 0 {
+		return lit
+	}
+	body := strings.TrimSuffix(strings.TrimPrefix(lit, "&lit{"), "}")
+	parts := splitTop(body)
+	for k, val := range extra {
+		if val != "" {
+			parts = append(parts, k+"="+val)
+		}
+	}
+	sort.Strings(parts)
+	return "&lit{" + strings.Join(parts, ",") + "}"
+}
+
+// splitTop splits a literal's body at its top-level commas.
+func splitTop(body string) []string {
+	var parts []string
+	depth, start := 0, 0
+	for i, r := range body {
+		switch r {
+		case '{', '(', '[':
+			depth++
+		case '}', ')', ']':
+			depth--
+		case ',':
+			if depth == 0 {
+				parts = append(parts, body[start:i])
+				start = i + 1
+			}
+		}
+	}
+	if start < len(body) {
+		parts = append(parts, body[start:])
+	}
+	return parts
+}
+
+// litField: the value of field name in a rendered literal `lit{a=…,b=…}`.
+func litField(lit, name string) (string, bool) {
+	if !strings.HasPrefix(lit, "lit{") || !strings.HasSuffix(lit, "}") {
+		return "", false
+	}
+	for _, part := range splitTop(lit[4 : len(lit)-1]) {
+		if strings.HasPrefix(part, name+"=") {
+			return part[len(name)+1:], true
+		}
+	}
+	return "", false
+}
+
+// SimplifyLitFields rewrites every `lit{…,f=V,…}.f` in a rendered path to V: a field read
+// from a struct value whose construction is in view.
+func SimplifyLitFields(s string) string {
+	for iter := 0; iter < 16; iter++ {
+		changed := false
+		for i := strings.Index(s, "lit{"); i >= 0; {
+			// matching brace
+			depth, end := 0, -1
+			for j := i + 3; j < len(s); j++ {
+				switch s[j] {
+				case '{', '(', '[':
+					depth++
+				case '}', ')', ']':
+					depth--
+				}
+				if depth == 0 {
+					end = j
+					break
+				}
+			}
+			if end < 0 {
+				break
+			}
+			if end+1 < len(s) && s[end+1] == '.' {
+				k := end + 2
+				for k < len(s) && (s[k] == '_' || s[k] >= '0' && s[k] <= '9' || s[k] >= 'a' && s[k] <= 'z' || s[k] >= 'A' && s[k] <= 'Z') {
+					k++
+				}
+				if v, ok := litField(s[i:end+1], s[end+2:k]); ok && k > end+2 {
+					start := i
+					if start > 0 && s[start-1] == '&' {
+						start--
+					}
+					s = s[:start] + v + s[k:]
+					changed = true
+					break
+				}
+			}
+			next := strings.Index(s[i+4:], "lit{")
+			if next < 0 {
+				break
+			}
+			i = i + 4 + next
+		}
+		if !changed {
+			break
+		}
+	}
+	return s
+}
+
+// FieldWriteOnceHook: field #i of the struct type behind t is assigned only where the object
+// is being built (in a composite literal, or by the function that just got it from its
+// constructor) — installed by the loader, which sees the whole module. Never by default.
+var FieldWriteOnceHook = func(t types.Type, i int) bool { return false }
 
 // StructLitFields: for a local struct built field by field (composite
 // literal), the value stored into each field (single store per field).
